@@ -3107,10 +3107,11 @@ Section Sim.
     destruct Hparts as (Hx & HxB & Hst & Hokb). clear Hok.
     apply step_ok_expr in Hst.
     rewrite sitems_SFrom in *. cbv zeta in *. cbn [from_idn from_lr1] in *. rewrite step_code_expr in *.
+    rewrite (xcode_pure c b (proj1 (ok_expr_parts _ _ Hob))) in *.
     set (se := step_expr step) in *.
     set (cb0 := bitems c (S lr) (Some 1) body) in *.
     set (endr := lregn (S lr)) in *.
-    set (la := length (pcode c a0)) in *. set (lb := length (pcode c b)) in *. set (lbd := length cb0) in *.
+    set (la := length (xcode c a0)) in *. set (lb := length (pcode c b)) in *. set (lbd := length cb0) in *.
     set (ls := length (pcode c se)) in *.
     set (nd := if collide then 0 else 1).
     match type of Hend with k + length ?L < _ =>
@@ -3161,13 +3162,15 @@ Section Sim.
     rewrite exec_SFrom. cbn [after].
     destruct fuel as [|fuel]; [exact Logic.I|].
     (* the lower bound *)
-    pose proof (expr_run pins a0 c (S fuel) k a g env s B Hoa Hb ltac:(lia) Hca ltac:(fold la; unfold fin, kd, kj, kp, ks, kb, kw, kc, k3, k1 in *; lia) Hip Hops Hacb HG) as He.
-    fold la in He. fold k1 in He.
-    destruct (eval (S fuel) env a0 s) as [va s1|s1|f s1|]; [|contradiction| |exact Logic.I].
-    2:{ destruct He as (-> & e0 & g' & Hf & Hr & Ho). eapply post_expr_fail; eassumption. }
-    destruct He as (-> & Hfoa & g1 & R1 & HG1 & Hf1 & Hlk1).
+    pose proof (rhs_run a0 pins c (S fuel) k a g env s B ltac:(lia) Hoa Hb
+                  ltac:(fold la; unfold fin, kd, kj, kp, ks, kb, kw, kc, k3, k1 in *; lia) Hca
+                  ltac:(fold la; unfold fin, kd, kj, kp, ks, kb, kw, kc, k3, k1 in *; lia) Hip Hacb Hops HG) as He.
+    fold la in He. fold k1 in He. rename s into s00.
+    destruct (eval (S fuel) env a0 s00) as [va s|s|f s|]; cbn [rhs_res] in He; [|exact Logic.I|exact He|exact Logic.I].
+    destruct He as (Hfoa & a1x & g1 & R1 & Hip1 & Hops1 & HG1 & Hf1 & Ha1 & Hss1 & Hlk1 & _).
+    rewrite (act_ext a a1x _ _ Ha1 Hip1 Hops1 Hss1) in R1. clear a1x Hip1 Hops1 Ha1 Hss1.
     (* the counter: a fresh name (declared) / an existing variable (assigned) *)
-    destruct (locals env) as [|sc0 l'] eqn:El; [exact (False_ind _ (Rg_ne _ _ _ HG El))|].
+    destruct (locals env) as [|sc0 l'] eqn:El; [exact (False_ind _ (Rg_ne _ _ _ HG1 El))|].
     destruct ((if collide then assign env s x va else declare env s x va)) as [env1 s1] eqn:Edec.
     assert (Hxn : collide = false -> lookup_scopes x (sc0 :: l') = None).
     { intros Ec. rewrite Ec in HxB. destruct HxB as [HxB HxU]. rewrite <- El. destruct (lookup_scopes x (locals env)) eqn:E; [|reflexivity].
@@ -3215,7 +3218,7 @@ Section Sim.
     (* the upper bound: the reference semantics evaluates it before the counter exists; same result *)
     assert (Hagb : forall y, In y (used_e b) -> agree env s env1 s1 y).
     { destruct Hcase as [(Ec & El1 & Es1)|(Ec & El1 & Hub)]; [|rewrite Hub; intros y []]. rewrite Ec in HxB. destruct HxB as [HxB HxU].
-      eapply (agree_of pins env s g env1 s1 b B HG Hob Hb (assign_captured _ _ _ _ _ _ Eas)); [|exact Es1].
+      eapply (agree_of pins env s g1 env1 s1 b B HG1 Hob Hb (assign_captured _ _ _ _ _ _ Eas)); [|exact Es1].
       intros y Hy. fold lL. rewrite El1, El. cbn [lookup_scopes].
       rewrite assoc_set_other; [reflexivity|]. intros ->. exact (HxU Hy). }
     destruct (ok_expr_parts _ _ Hob) as (Hpb & _ & _).
@@ -3321,7 +3324,7 @@ Section Sim.
       - split; [|split; [exact Hops5|]].
         + eapply (undeclare_rel pins ce (VInt hi) env5 s5 g5t x (assoc_set x cx0 sc0) l' F2 R vs);
             [apply Rg_trc; exact HG5|exact El5'|exact Ef5|exact Hx|exact Hvs1|exact Hvs2|now rewrite Hdel0|exact Hxl'|exact Hndvs|].
-          intros x0 [d0 d0'] Hin ->. destruct (Rg_dlook _ _ _ HG x d0 d0' Hin 0 ltac:(rewrite El; cbn [length]; lia)) as [H1 _].
+          intros x0 [d0 d0'] Hin ->. destruct (Rg_dlook _ _ _ HG1 x d0 d0' Hin 0 ltac:(rewrite El; cbn [length]; lia)) as [H1 _].
           cbn [skipn] in H1. rewrite app_nil_r, El in H1. congruence.
         + rewrite Eu. cbn [set_ip a_ss]. rewrite El1 in Hss5. cbn [length] in *. exact Hss5.
       - repeat split.
@@ -3516,11 +3519,12 @@ Section Sim.
     rewrite ok_SFrom in Hok. rewrite !Bool.andb_true_iff in Hok. destruct Hok as [[Hoa Hob] [Hst Hokb]].
     apply step_ok_expr in Hst.
     rewrite sitems_SFrom in *. cbv zeta in *. cbn [from_idn from_lr1] in *. rewrite step_code_expr in *.
+    rewrite (xcode_pure c b (proj1 (ok_expr_parts _ _ Hob))) in *.
     set (se := step_expr step) in *.
     set (cb0 := bitems c (S (S lr)) (Some 1) body) in *.
     set (idn := lregn (S lr)) in *.
     set (endr := lregn (S (S lr))) in *.
-    set (la := length (pcode c a0)) in *. set (lb := length (pcode c b)) in *. set (lbd := length cb0) in *.
+    set (la := length (xcode c a0)) in *. set (lb := length (pcode c b)) in *. set (lbd := length cb0) in *.
     set (ls := length (pcode c se)) in *.
     match type of Hend with k + length ?L < _ =>
       assert (Hlen : length L = la + 1 + lb + 1 + 3 + 1 + (lbd + ls + 2) + 1)
@@ -3573,13 +3577,15 @@ Section Sim.
     rewrite exec_SFrom. cbn [after].
     destruct fuel as [|fuel]; [exact Logic.I|].
     (* the lower bound *)
-    pose proof (expr_run pins a0 c (S fuel) k a g env s B Hoa Hb ltac:(lia) Hca ltac:(fold la; unfold fin, kd, kj, kp, ks, kb, kw, kc, k3, k1 in *; lia) Hip Hops Hacb HG) as He.
-    fold la in He. fold k1 in He.
-    destruct (eval (S fuel) env a0 s) as [va s1|s1|f s1|]; [|contradiction| |exact Logic.I].
-    2:{ destruct He as (-> & e0 & g' & Hf & Hr & Ho). eapply post_expr_fail; eassumption. }
-    destruct He as (-> & Hfoa & g1 & R1 & HG1 & Hf1 & Hlk1).
+    pose proof (rhs_run a0 pins c (S fuel) k a g env s B ltac:(lia) Hoa Hb
+                  ltac:(fold la; unfold fin, kd, kj, kp, ks, kb, kw, kc, k3, k1 in *; lia) Hca
+                  ltac:(fold la; unfold fin, kd, kj, kp, ks, kb, kw, kc, k3, k1 in *; lia) Hip Hacb Hops HG) as He.
+    fold la in He. fold k1 in He. rename s into s00.
+    destruct (eval (S fuel) env a0 s00) as [va s|s|f s|]; cbn [rhs_res] in He; [|exact Logic.I|exact He|exact Logic.I].
+    destruct He as (Hfoa & a1x & g1 & R1 & Hip1 & Hops1 & HG1 & Hf1 & Ha1 & Hss1 & Hlk1 & _).
+    rewrite (act_ext a a1x _ _ Ha1 Hip1 Hops1 Hss1) in R1. clear a1x Hip1 Hops1 Ha1 Hss1.
     (* the hidden counter: source name `hid` in the innermost scope, VM register L#(lr+1) in the top frame *)
-    destruct (locals env) as [|sc0 l'] eqn:El; [exact (False_ind _ (Rg_ne _ _ _ HG El))|].
+    destruct (locals env) as [|sc0 l'] eqn:El; [exact (False_ind _ (Rg_ne _ _ _ HG1 El))|].
     set (cx := N.of_nat (length (store s))).
     set (lL := assoc_set hid cx sc0 :: l').
     set (env1 := {| locals := lL; captured := captured env; cur := cur env |}).
@@ -3626,7 +3632,7 @@ Section Sim.
     (* the upper bound: the reference semantics evaluates it before the counter exists; same result *)
     destruct (ok_expr_parts _ _ Hob) as (Hpb & Hlb & Hub).
     assert (Hagb : forall y, In y (used_e b) -> agree env s env1 s1 y).
-    { eapply (agree_of pins env s g env1 s1 b B HG Hob Hb eq_refl); [|exact Es1].
+    { eapply (agree_of pins env s g1 env1 s1 b B HG1 Hob Hb eq_refl); [|exact Es1].
       intros y Hy. rewrite El. cbn [env1 locals lL lookup_scopes].
       rewrite assoc_set_other; [reflexivity|]. intros ->. destruct (Hub hid Hy) as [[_ [_ Hh]] _]. exact (Hh eq_refl). }
     destruct (eval_pure_congr b Hpb (S fuel) env s env1 s1 Hagb) as [Hst_b Eb1].
